@@ -1057,5 +1057,11 @@ seed("c14-ehlo-keys-lower-cased", "C14", "R-ehlo-keys", "client.go",
 				ext[strings.ToLower(args[0])] = \"\"
 			}""", "no upper-case lookup finds an advertised extension: every option is silently dropped")
 
+seed("c19-counter-reset-per-command", "C19", "R-linelimit-threshold", "conn.go",
+"""	line, err := c.text.ReadLine()
+	if err == nil && c.lineLimitReader.exceeded() {""", """	c.lineLimitReader.curLineLength = 0
+	line, err := c.text.ReadLine()
+	if err == nil && c.lineLimitReader.exceeded() {""", "readLine zeroes the limiter's count: read-ahead octets of a pipelined long line are forgotten")
+
 json.dump(S, open(os.path.join(os.path.dirname(os.path.abspath(__file__)), "bank.json"), "w"), indent=1)
 print(len(S), "seeds")
